@@ -547,6 +547,14 @@ class _Scan(DefaultVisitor):
             if param is not None and param.written:
                 if (r := self.alias.region_of_expr(a)) is not None:
                     self.written.add(r)
+            if param is None or param.written:
+                # a callee that stores into a list of lists may put a different
+                # list into a slot (its `xss[i] = <list>`), which a reference
+                # held here would re-read just the same
+                depth = 1
+                while (r := self.alias.region_of_expr(a, depth)) is not None:
+                    self.slot_replaced.add(r)
+                    depth += 1
         if abi is None or not _unboxed(abi.ret):
             self.at_boundary |= self._levels(e)
         super()._visit_call(e, ctx)
